@@ -1,3 +1,838 @@
-//! C20 — bounded checks (to be written)
-use crate::ctx::Ctx;
-pub fn run(_ctx: &mut Ctx) {}
+//! C20 — results do not depend on unspecified choices of the array backend.
+//!
+//! A second array backend `AdvKind` (c20_adv.rs) satisfies the documented array contract but
+//! resolves every open choice differently from the Vec backend (argsort tie order, numbering of
+//! connected components, key order of sparse_bincount, scatter filler; in the pseudo-random modes
+//! also the winner among colliding scatter writes and the order of `zero()`).  Every check builds
+//! the SAME plain model on both backends, runs the REAL generic library code on both and compares:
+//!   * diagrams: deep well-formedness of the raw fields + isomorphism (model::iso) between the two
+//!     backends' results AND with the result computed from the definition by plain loops;
+//!   * predicates, layer validity, layerings, evaluation values, error variants: identical on both
+//!     backends AND equal to the plain-loop definition.
+//! Files: c20_adv.rs (backend), c20_backend.rs (both instantiations behind a plain-data interface),
+//! c20_oracle.rs (definitions), c20_gen.rs (generators).
+#[path = "c20_adv.rs"]
+mod adv;
+#[path = "c20_backend.rs"]
+mod backend;
+#[path = "c20_gen.rs"]
+mod gen;
+#[path = "c20_oracle.rs"]
+mod oracle;
+
+use crate::ctx::{guard, Ctx};
+use crate::model::{self, M};
+use backend::{ak, raw_wf, vk, FSpec, OSpec, Raw};
+use serde_json::{json, Value};
+use std::any::Any;
+use std::cell::{Cell, RefCell};
+use std::sync::atomic::{AtomicBool, AtomicUsize, Ordering};
+use std::sync::{Arc, Mutex};
+use std::time::{Duration, Instant};
+
+type Check = fn(&mut Ctx, &Value);
+const CHECKS: &[(&str, Check)] = &[
+    ("compose", chk_compose),
+    ("tensor", chk_tensor),
+    ("functor", chk_functor),
+    ("optic", chk_optic),
+    ("layer", chk_layer),
+    ("eval", chk_eval),
+    ("preds", chk_preds),
+    ("arrow", chk_arrow),
+    ("graph", chk_graph),
+    ("coequalizer", chk_coequalizer),
+];
+
+// ------------------------------------------------------------------------------------------------
+// decoding helpers
+// ------------------------------------------------------------------------------------------------
+fn dec_model(v: &Value) -> Option<M> {
+    M::from_json(v).filter(|m| m.valid())
+}
+fn dec_us(v: &Value) -> Option<Vec<usize>> {
+    v.as_array()?.iter().map(|x| x.as_u64().map(|y| y as usize)).collect()
+}
+fn dec_u8s(v: &Value) -> Option<Vec<u8>> {
+    v.as_array()?.iter().map(|x| x.as_u64().map(|y| y as u8)).collect()
+}
+fn dec_i64s(v: &Value) -> Option<Vec<i64>> {
+    v.as_array()?.iter().map(|x| x.as_i64()).collect()
+}
+fn dec_table(v: &Value) -> Option<Vec<Vec<u8>>> {
+    let t: Vec<Vec<u8>> = v.as_array()?.iter().map(dec_u8s).collect::<Option<_>>()?;
+    if t.is_empty() {
+        None
+    } else {
+        Some(t)
+    }
+}
+fn dec_mode(v: &Value) -> u64 {
+    v["mode"].as_u64().unwrap_or(0)
+}
+
+// ------------------------------------------------------------------------------------------------
+// running library code: on a worker thread, so that a call that never returns (a plausible effect of
+// an order-dependent bug inside a `while frontier non-empty` loop) becomes a reported failure too
+// ------------------------------------------------------------------------------------------------
+type Job = Box<dyn FnOnce() -> Box<dyn Any + Send> + Send>;
+/// a one-slot mailbox with spin-then-park waiting (a channel hand-off costs ~50 us per call, which
+/// would dominate the run time of these microsecond-sized cases)
+struct Mailbox {
+    job: Mutex<Option<Job>>,
+    result: Mutex<Option<Box<dyn Any + Send>>>,
+    has_job: AtomicBool,
+    has_result: AtomicBool,
+}
+struct Worker {
+    mb: Arc<Mailbox>,
+    handle: std::thread::Thread,
+}
+thread_local! {
+    static WORKER: RefCell<Option<Worker>> = RefCell::new(None);
+    static TIMEOUTS: Cell<usize> = Cell::new(0);
+}
+thread_local! { static STATS: RefCell<std::collections::BTreeMap<&'static str, u64>> = RefCell::new(Default::default()); }
+/// coverage counters reported in the notes (how often each outcome class was actually exercised)
+fn stat(name: &'static str) {
+    STATS.with(|s| *s.borrow_mut().entry(name).or_insert(0) += 1);
+}
+const CALL_TIMEOUT: Duration = Duration::from_secs(4);
+
+fn spawn_worker() -> Worker {
+    let mb = Arc::new(Mailbox { job: Mutex::new(None), result: Mutex::new(None), has_job: AtomicBool::new(false), has_result: AtomicBool::new(false) });
+    let m = mb.clone();
+    let jh = std::thread::Builder::new()
+        .stack_size(64 << 20)
+        .spawn(move || loop {
+            let mut spins = 0u32;
+            while !m.has_job.load(Ordering::Acquire) {
+                spins += 1;
+                if spins < 20_000 {
+                    std::hint::spin_loop();
+                } else if Arc::strong_count(&m) == 1 {
+                    return; // abandoned
+                } else {
+                    std::thread::park_timeout(Duration::from_millis(2));
+                }
+            }
+            let job = m.job.lock().unwrap().take().expect("job posted");
+            m.has_job.store(false, Ordering::Release);
+            let r = job();
+            *m.result.lock().unwrap() = Some(r);
+            m.has_result.store(true, Ordering::Release);
+        })
+        .expect("spawn worker");
+    Worker { mb, handle: jh.thread().clone() }
+}
+
+/// run the same computation on both backends (Vec first, then AdvKind in the given mode);
+/// a panic or a call that does not return within CALL_TIMEOUT becomes Err
+fn both<C: Clone + Send + 'static, T: Send + 'static>(mode: u64, c: &C, fv: fn(&C) -> T, fa: fn(&C) -> T) -> (Result<T, String>, Result<T, String>) {
+    if TIMEOUTS.with(|t| t.get()) >= 3 {
+        let e = || Err("not run: three earlier calls did not return".to_string());
+        return (e(), e());
+    }
+    let c = c.clone();
+    let stage = Arc::new(AtomicUsize::new(0));
+    let st = stage.clone();
+    let job: Job = Box::new(move || {
+        adv::set_mode(mode);
+        let v = guard(|| fv(&c));
+        st.store(1, Ordering::SeqCst);
+        let a = guard(|| fa(&c));
+        Box::new((v, a))
+    });
+    WORKER.with(|w| {
+        let mut w = w.borrow_mut();
+        if w.is_none() {
+            *w = Some(spawn_worker());
+        }
+        let wk = w.as_ref().unwrap();
+        *wk.mb.job.lock().unwrap() = Some(job);
+        wk.mb.has_job.store(true, Ordering::Release);
+        wk.handle.unpark();
+        let t0 = Instant::now();
+        let mut spins = 0u32;
+        let got = loop {
+            if wk.mb.has_result.load(Ordering::Acquire) {
+                wk.mb.has_result.store(false, Ordering::Release);
+                break wk.mb.result.lock().unwrap().take();
+            }
+            spins += 1;
+            if spins < 50_000 {
+                std::hint::spin_loop();
+            } else if t0.elapsed() > CALL_TIMEOUT {
+                break None;
+            } else {
+                std::thread::sleep(Duration::from_micros(100));
+            }
+        };
+        match got {
+            Some(b) => *b.downcast::<(Result<T, String>, Result<T, String>)>().expect("result type"),
+            None => {
+                // abandon the runaway thread (it dies with the process) and start afresh
+                *w = None;
+                TIMEOUTS.with(|t| t.set(t.get() + 1));
+                let e = || Err(format!("no result within {} s (non-termination)", CALL_TIMEOUT.as_secs()));
+                if stage.load(Ordering::SeqCst) == 0 {
+                    (e(), Err("not reached".to_string()))
+                } else {
+                    (Err("returned".to_string()), e())
+                }
+            }
+        }
+    })
+}
+
+/// report a panic on either backend; returns the two values if both returned
+fn no_panic<T>(ctx: &mut Ctx, check: &str, op: &str, input: &Value, r: (Result<T, String>, Result<T, String>)) -> Option<(T, T)> {
+    match r {
+        (Ok(v), Ok(a)) => Some((v, a)),
+        (Err(p), _) if p.starts_with("not run:") => None,
+        (v, a) => {
+            let d = |x: &Result<T, String>| match x {
+                Ok(_) => "returned".to_string(),
+                Err(p) if p == "returned" || p == "not reached" => p.clone(),
+                Err(p) => format!("panic / no return: {}", p),
+            };
+            ctx.fail(check, &format!("C20.{}-no-panic", op), input, json!({"vec": d(&v), "adv": d(&a)}), json!("both backends return"));
+            None
+        }
+    }
+}
+
+/// clauses shared by all diagram-valued operations: both raw results deeply well formed, the two
+/// results isomorphic, and the adversarial result isomorphic to the definition
+fn compare_diagrams(ctx: &mut Ctx, check: &str, op: &str, input: &Value, rv: &Raw, ra: &Raw, def: Option<&M>) {
+    let ma = match raw_wf(ra) {
+        Ok(m) => m,
+        Err(why) => {
+            ctx.fail(check, &format!("C20.{}-wf", op), input, json!({"adv": why, "raw": format!("{:?}", ra)}), json!("well-formed raw fields"));
+            return;
+        }
+    };
+    let mv = match raw_wf(rv) {
+        Ok(m) => m,
+        Err(why) => {
+            ctx.fail(check, &format!("C20.{}-wf", op), input, json!({"vec": why, "raw": format!("{:?}", rv)}), json!("well-formed raw fields"));
+            return;
+        }
+    };
+    if !model::is_iso(&ma, &mv) {
+        ctx.fail(check, &format!("C20.{}-iso-vec", op), input, json!({"adv": ma.json()}), json!({"vec": mv.json()}));
+    }
+    if let Some(d) = def {
+        if !model::is_iso(&ma, d) {
+            ctx.fail(check, &format!("C20.{}-iso-def", op), input, json!({"adv": ma.json()}), json!({"definition": d.json()}));
+        }
+        if !model::is_iso(&mv, d) {
+            ctx.fail(check, &format!("C20.{}-iso-def", op), input, json!({"vec": mv.json()}), json!({"definition": d.json()}));
+        }
+    }
+}
+
+// ------------------------------------------------------------------------------------------------
+// checks
+// ------------------------------------------------------------------------------------------------
+/// input: {"f": model, "g": model, "mode": n}
+fn chk_compose(ctx: &mut Ctx, input: &Value) {
+    let (f, g) = match (dec_model(&input["f"]), dec_model(&input["g"])) {
+        (Some(f), Some(g)) => (f, g),
+        _ => return,
+    };
+    let def = model::compose(&f, &g);
+    ctx.case("compose", input, def.is_some() && f.nontrivial() && g.nontrivial());
+    let r = both(dec_mode(input), &(f.clone(), g.clone()), |c| vk::compose(&c.0, &c.1), |c| ak::compose(&c.0, &c.1));
+    let (rv, ra) = match no_panic(ctx, "compose", "compose", input, r) {
+        Some(p) => p,
+        None => return,
+    };
+    if rv.is_some() != ra.is_some() || ra.is_some() != def.is_some() {
+        ctx.fail("compose", "C20.compose-defined", input, json!({"vec": rv.is_some(), "adv": ra.is_some()}), json!({"definition": def.is_some()}));
+        return;
+    }
+    if let (Some(rv), Some(ra)) = (rv, ra) {
+        stat(if rv == ra { "compose: defined, raw results identical" } else { "compose: defined, raw results differ (isomorphic)" });
+        compare_diagrams(ctx, "compose", "compose", input, &rv, &ra, def.as_ref());
+    } else {
+        stat("compose: undefined");
+    }
+}
+
+/// input: {"f": model, "g": model, "mode": n}
+fn chk_tensor(ctx: &mut Ctx, input: &Value) {
+    let (f, g) = match (dec_model(&input["f"]), dec_model(&input["g"])) {
+        (Some(f), Some(g)) => (f, g),
+        _ => return,
+    };
+    ctx.case("tensor", input, f.nontrivial() && g.nontrivial());
+    let r = both(dec_mode(input), &(f.clone(), g.clone()), |c| (vk::tensor(&c.0, &c.1), vk::types(&c.0)), |c| (ak::tensor(&c.0, &c.1), ak::types(&c.0)));
+    if let Some(((rv, tv), (ra, ta))) = no_panic(ctx, "tensor", "tensor", input, r) {
+        compare_diagrams(ctx, "tensor", "tensor", input, &rv, &ra, Some(&model::tensor(&f, &g)));
+        let def = (f.source_type(), f.target_type());
+        if tv != def || ta != def {
+            ctx.fail("tensor", "C20.types-same", input, json!({"vec": tv, "adv": ta}), json!(def));
+        }
+    }
+}
+
+/// input: {"f": model, "obj": [[labels]..], "policy": n (255 = library Identity functor), "mode": n}
+fn chk_functor(ctx: &mut Ctx, input: &Value) {
+    let (f, obj, policy) = match (dec_model(&input["f"]), dec_table(&input["obj"]), input["policy"].as_u64()) {
+        (Some(f), Some(o), Some(p)) => (f, o, p as usize),
+        _ => return,
+    };
+    let spec = FSpec { obj, policy };
+    ctx.case("functor", input, f.nontrivial() && !f.x.is_empty());
+    let def = oracle::functor_image(&spec, &f);
+    let r = both(dec_mode(input), &(spec.clone(), f.clone()), |c| vk::functor(&c.0, &c.1), |c| ak::functor(&c.0, &c.1));
+    if let Some((rv, ra)) = no_panic(ctx, "functor", "functor", input, r) {
+        stat(if rv == ra { "functor: raw results identical" } else { "functor: raw results differ (isomorphic)" });
+        compare_diagrams(ctx, "functor", "functor", input, &rv, &ra, Some(&def));
+    }
+}
+
+/// input: {"f": model, "fobj": table, "robj": table, "res": table, "mode": n}
+fn chk_optic(ctx: &mut Ctx, input: &Value) {
+    let (f, fobj, robj, res) = match (dec_model(&input["f"]), dec_table(&input["fobj"]), dec_table(&input["robj"]), dec_table(&input["res"])) {
+        (Some(f), Some(a), Some(b), Some(c)) => (f, a, b, c),
+        _ => return,
+    };
+    let spec = OSpec { fobj, robj, res };
+    ctx.case("optic", input, f.nontrivial() && !f.x.is_empty());
+    let def = oracle::optic_image(&spec, &f);
+    let def_ad = oracle::optic_adapted(&spec, &f);
+    let r = both(dec_mode(input), &(spec.clone(), f.clone()), |c| vk::optic(&c.0, &c.1), |c| ak::optic(&c.0, &c.1));
+    if let Some(((rv, av), (ra, aa))) = no_panic(ctx, "optic", "optic", input, r) {
+        stat(if rv == ra { "optic: raw results identical" } else { "optic: raw results differ (isomorphic)" });
+        compare_diagrams(ctx, "optic", "optic", input, &rv, &ra, Some(&def));
+        compare_diagrams(ctx, "optic", "optic-adapt", input, &av, &aa, Some(&def_ad));
+    }
+}
+
+/// input: {"f": model, "mode": n}
+fn chk_layer(ctx: &mut Ctx, input: &Value) {
+    let f = match dec_model(&input["f"]) {
+        Some(f) => f,
+        None => return,
+    };
+    ctx.case("layer", input, f.x.len() >= 2);
+    let r = both(dec_mode(input), &f, |c| vk::layer(c), |c| ak::layer(c));
+    let ((ov, uv, lv), (oa, ua, la)) = match no_panic(ctx, "layer", "layer", input, r) {
+        Some(p) => p,
+        None => return,
+    };
+    let k = f.x.len();
+    let arcs = oracle::op_arcs(&f);
+    let (od, ud) = oracle::rounds(k, &arcs);
+    let valid = |u: &Vec<usize>| u.iter().all(|&b| b == 0);
+    let def_valid = oracle::acyclic(k, &arcs);
+    stat(if def_valid { "layer: valid" } else { "layer: invalid (cyclic)" });
+    if lv != la {
+        stat("layer: operations listed in a different order within a layer");
+    }
+    if valid(&uv) != valid(&ua) || valid(&ua) != def_valid {
+        ctx.fail("layer", "C20.layer-validity", input, json!({"vec": valid(&uv), "adv": valid(&ua)}), json!(def_valid));
+    }
+    if ov != oa || uv != ua {
+        ctx.fail("layer", "C20.layer-same", input, json!({"adv": [oa.clone(), ua.clone()]}), json!({"vec": [ov.clone(), uv.clone()]}));
+    }
+    if oa != od || ua != ud || ov != od || uv != ud {
+        ctx.fail("layer", "C20.layer-def", input, json!({"adv": [oa.clone(), ua.clone()], "vec": [ov, uv]}), json!([od, ud]));
+    }
+    if oa.len() == k && valid(&ua) {
+        if let Some(&(a, b)) = arcs.iter().find(|&&(a, b)| oa[a] >= oa[b]) {
+            ctx.fail("layer", "C20.layer-compatible", input, json!({"adv_layers": oa.clone(), "arc": [a, b]}), json!("layer(a) < layer(b) for every dependency"));
+        }
+    }
+    // operations listed per layer: the same sets on both backends, and exactly { e | layer(e) = i }
+    let norm = |ls: &Vec<Vec<usize>>| -> Vec<Vec<usize>> { ls.iter().map(|l| oracle::sorted(l.clone())).collect() };
+    let want: Vec<Vec<usize>> = (0..k).map(|i| (0..k).filter(|&e| od[e] == i).collect()).collect();
+    if norm(&lv) != norm(&la) || norm(&la) != want {
+        ctx.fail("layer", "C20.layered-operations", input, json!({"adv": la, "vec": lv}), json!(want));
+    }
+}
+
+/// input: {"f": model whose operation labels satisfy label % 8 = number of targets, "in": [values], "mode": n}
+fn chk_eval(ctx: &mut Ctx, input: &Value) {
+    let (f, ins) = match (dec_model(&input["f"]), dec_i64s(&input["in"])) {
+        (Some(f), Some(i)) => (f, i),
+        _ => return,
+    };
+    if ins.len() != f.s.len() || (0..f.x.len()).any(|e| (f.x[e] % 8) as usize != f.tgt[e].len()) {
+        return;
+    }
+    let determined = oracle::single_writer(&f);
+    ctx.case("eval", input, determined && !f.x.is_empty());
+    let r = both(dec_mode(input), &(f.clone(), ins.clone()), |c| vk::eval(&c.0, &c.1), |c| ak::eval(&c.0, &c.1));
+    let (rv, ra) = match no_panic(ctx, "eval", "eval", input, r) {
+        Some(p) => p,
+        None => return,
+    };
+    let def_valid = oracle::acyclic(f.x.len(), &oracle::op_arcs(&f));
+    if rv.is_some() != ra.is_some() || ra.is_some() != def_valid {
+        ctx.fail("eval", "C20.eval-validity", input, json!({"vec": rv.is_some(), "adv": ra.is_some()}), json!(def_valid));
+        return;
+    }
+    stat(match (determined, def_valid) {
+        (true, true) => "eval: single-writer, evaluates",
+        (true, false) => "eval: single-writer, cyclic",
+        _ => "eval: several writers (validity only)",
+    });
+    if determined {
+        if rv != ra {
+            ctx.fail("eval", "C20.eval-same", input, json!({"adv": ra}), json!({"vec": rv}));
+        }
+        let def = oracle::eval(&f, &ins);
+        if ra != def || rv != def {
+            ctx.fail("eval", "C20.eval-def", input, json!({"adv": ra, "vec": rv}), json!(def));
+        }
+    }
+}
+
+/// input: {"f": model, "mode": n}
+fn chk_preds(ctx: &mut Ctx, input: &Value) {
+    let f = match dec_model(&input["f"]) {
+        Some(f) => f,
+        None => return,
+    };
+    ctx.case("preds", input, !f.x.is_empty() && !f.w.is_empty());
+    let r = both(dec_mode(input), &f, |c| vk::preds(c), |c| ak::preds(c));
+    if let Some(((av, mv), (aa, ma))) = no_panic(ctx, "preds", "preds", input, r) {
+        let ad = oracle::acyclic(f.w.len(), &oracle::node_arcs(&f));
+        let md = oracle::monogamous(&f);
+        stat(if ad { "preds: acyclic" } else { "preds: cyclic" });
+        stat(if md { "preds: monogamous" } else { "preds: not monogamous" });
+        if av != aa || aa != ad {
+            ctx.fail("preds", "C20.is-acyclic", input, json!({"vec": av, "adv": aa}), json!(ad));
+        }
+        if mv != ma || ma != md {
+            ctx.fail("preds", "C20.is-monogamous", input, json!({"vec": mv, "adv": ma}), json!(md));
+        }
+    }
+}
+
+/// input: {"g": source hypergraph (model, interfaces ignored), "h": target, "w": node map, "x": operation map, "mode": n}
+fn chk_arrow(ctx: &mut Ctx, input: &Value) {
+    let (g, h, w, x) = match (dec_model(&input["g"]), dec_model(&input["h"]), dec_us(&input["w"]), dec_us(&input["x"])) {
+        (Some(g), Some(h), Some(w), Some(x)) => (g, h, w, x),
+        _ => return,
+    };
+    if w.len() != g.w.len() || x.len() != g.x.len() || w.iter().any(|&v| v >= h.w.len()) || x.iter().any(|&e| e >= h.x.len()) {
+        return;
+    }
+    let (g, h) = (gen::strip_interfaces(&g), gen::strip_interfaces(&h));
+    let valid = oracle::arrow_valid(&g, &h, &w, &x);
+    ctx.case("arrow", input, valid && !h.x.is_empty() && !w.is_empty());
+    let r = both(dec_mode(input), &(g.clone(), h.clone(), w.clone(), x.clone()), |c| vk::harrow(&c.0, &c.1, &c.2, &c.3), |c| ak::harrow(&c.0, &c.1, &c.2, &c.3));
+    let (rv, ra) = match no_panic(ctx, "arrow", "arrow", input, r) {
+        Some(p) => p,
+        None => return,
+    };
+    if rv.validate != ra.validate || ra.validate.is_ok() != valid {
+        ctx.fail("arrow", "C20.arrow-validate", input, json!({"vec": format!("{:?}", rv.validate), "adv": format!("{:?}", ra.validate)}), json!({"natural": valid}));
+        return;
+    }
+    if !valid {
+        stat("arrow: not natural");
+    }
+    if valid {
+        let mono = oracle::injective(&w) && oracle::injective(&x);
+        if rv.mono != ra.mono || ra.mono != Some(mono) {
+            ctx.fail("arrow", "C20.arrow-is-monomorphism", input, json!({"vec": rv.mono, "adv": ra.mono}), json!(mono));
+        }
+        let convex = oracle::convex(&h, &w, &x);
+        stat(if !mono { "arrow: natural, not injective" } else if convex { "arrow: convex sub-hypergraph" } else { "arrow: non-convex sub-hypergraph" });
+        if rv.convex != ra.convex || ra.convex != Some(convex) {
+            ctx.fail("arrow", "C20.arrow-is-convex-subgraph", input, json!({"vec": rv.convex, "adv": ra.convex}), json!(convex));
+        }
+    }
+}
+
+/// the crate-private building blocks. input: {"f": model, "sel": [nodes], "mode": n}
+fn chk_graph(ctx: &mut Ctx, input: &Value) {
+    let (f, sel) = match (dec_model(&input["f"]), dec_us(&input["sel"])) {
+        (Some(f), Some(s)) => (f, s),
+        _ => return,
+    };
+    // the selection is documented as a subset of the nodes: distinct entries
+    if sel.iter().any(|&v| v >= f.w.len()) || !oracle::injective(&sel) {
+        return;
+    }
+    ctx.case("graph", input, !f.x.is_empty() && !f.w.is_empty());
+    let r = both(
+        dec_mode(input),
+        &(f.clone(), sel.clone()),
+        |c| (vk::adjacency(&c.0), vk::sparse_indegree(&c.0, &c.1), vk::kahn_nodes(&c.0)),
+        |c| (ak::adjacency(&c.0), ak::sparse_indegree(&c.0, &c.1), ak::kahn_nodes(&c.0)),
+    );
+    let ((adjv, siv, kv), (adja, sia, ka)) = match no_panic(ctx, "graph", "graph", input, r) {
+        Some(p) => p,
+        None => return,
+    };
+    let n = f.w.len();
+    // converse / adjacency rows are determined as multisets only
+    let conv_def = oracle::converse(&f.src, n);
+    let na_def = oracle::node_adjacency(&f);
+    let oa_def = oracle::op_adjacency(&f);
+    for (who, adj) in [("vec", &adjv), ("adv", &adja)] {
+        if oracle::sorted_rows(&adj.0) != conv_def {
+            ctx.fail("graph", "C20.converse", input, json!({who: adj.0.clone()}), json!(conv_def));
+        }
+        if oracle::sorted_rows(&adj.1) != na_def {
+            ctx.fail("graph", "C20.node-adjacency", input, json!({who: adj.1.clone()}), json!(na_def));
+        }
+        if oracle::sorted_rows(&adj.2) != oa_def {
+            ctx.fail("graph", "C20.operation-adjacency", input, json!({who: adj.2.clone()}), json!(oa_def));
+        }
+    }
+    // sparse relative indegree: distinct keys, count = number of arcs from the selection (with multiplicity)
+    let arcs = oracle::node_arcs(&f);
+    let mut want: Vec<(usize, usize)> = vec![];
+    for v in 0..n {
+        let c: usize = sel.iter().map(|&u| arcs.iter().filter(|&&(a, b)| a == u && b == v).count()).sum();
+        if c > 0 {
+            want.push((v, c));
+        }
+    }
+    for (who, si) in [("vec", &siv), ("adv", &sia)] {
+        let mut got: Vec<(usize, usize)> = si.0.iter().cloned().zip(si.1.iter().cloned()).collect();
+        got.sort();
+        if si.0.len() != si.1.len() || got != want {
+            ctx.fail("graph", "C20.sparse-relative-indegree", input, json!({who: [si.0.clone(), si.1.clone()]}), json!(want));
+        }
+    }
+    // kahn on nodes: rounds and unvisited flags are determined
+    let (od, ud) = oracle::rounds(n, &arcs);
+    if kv != ka || ka != (od.clone(), ud.clone()) {
+        ctx.fail("graph", "C20.kahn", input, json!({"vec": [kv.0, kv.1], "adv": [ka.0, ka.1]}), json!([od, ud]));
+    }
+}
+
+/// input: {"a": [..], "b": [..], "n": n  (parallel maps k -> n),  "q": [..], "k": k, "labels": [..] (q : |labels| -> k), "mode": n}
+fn chk_coequalizer(ctx: &mut Ctx, input: &Value) {
+    let (a, b, n, q, k, labels) = match (dec_us(&input["a"]), dec_us(&input["b"]), input["n"].as_u64(), dec_us(&input["q"]), input["k"].as_u64(), dec_u8s(&input["labels"])) {
+        (Some(a), Some(b), Some(n), Some(q), Some(k), Some(l)) => (a, b, n as usize, q, k as usize, l),
+        _ => return,
+    };
+    if a.iter().chain(b.iter()).any(|&v| v >= n) || q.iter().any(|&v| v >= k) || q.len() != labels.len() || (q.is_empty() && k > 0) {
+        return;
+    }
+    ctx.case("coequalizer", input, !a.is_empty() && n > 1);
+    let r = both(
+        dec_mode(input),
+        &(a.clone(), b.clone(), n, q.clone(), k, labels.clone()),
+        |c| (vk::coequalizer(&c.0, &c.1, c.2), vk::universal(&c.3, c.4, &c.5), vk::injective(&c.3, c.4)),
+        |c| (ak::coequalizer(&c.0, &c.1, c.2), ak::universal(&c.3, c.4, &c.5), ak::injective(&c.3, c.4)),
+    );
+    let ((cv, uv, iv), (ca, ua, ia)) = match no_panic(ctx, "coequalizer", "coequalizer", input, r) {
+        Some(p) => p,
+        None => return,
+    };
+    // coequalizer: defined iff parallel; the classes of the generated equivalence, numbered onto 0..k in any way
+    let parallel = a.len() == b.len();
+    if cv.is_some() != parallel || ca.is_some() != parallel {
+        ctx.fail("coequalizer", "C20.coequalizer-defined", input, json!({"vec": cv.is_some(), "adv": ca.is_some()}), json!(parallel));
+    } else if parallel {
+        let pairs: Vec<(usize, usize)> = a.iter().cloned().zip(b.iter().cloned()).collect();
+        let (cd, kd) = model::classes(n, &pairs);
+        for (who, c) in [("vec", cv.unwrap()), ("adv", ca.unwrap())] {
+            if !oracle::same_partition(&c.0, c.1, &cd, kd) {
+                ctx.fail("coequalizer", "C20.coequalizer-partition", input, json!({who: [json!(c.0), json!(c.1)]}), json!([cd, kd]));
+            }
+        }
+    }
+    // universal map: defined iff labels are constant on the fibres of q; then u[q[i]] = labels[i], length k
+    let consistent = (0..q.len()).all(|i| (0..i).all(|j| q[i] != q[j] || labels[i] == labels[j]));
+    if uv.is_some() != consistent || ua.is_some() != consistent {
+        ctx.fail("coequalizer", "C20.universal-defined", input, json!({"vec": uv.is_some(), "adv": ua.is_some()}), json!(consistent));
+    } else if consistent {
+        for (who, u) in [("vec", uv.unwrap()), ("adv", ua.unwrap())] {
+            if u.len() != k || (0..q.len()).any(|i| u[q[i]] != labels[i]) {
+                ctx.fail("coequalizer", "C20.universal-values", input, json!({who: u}), json!("length k and u[q[i]] = labels[i]"));
+            }
+        }
+    }
+    let inj = oracle::injective(&q);
+    if iv != inj || ia != inj {
+        ctx.fail("coequalizer", "C20.is-injective", input, json!({"vec": iv, "adv": ia}), json!(inj));
+    }
+}
+
+// ------------------------------------------------------------------------------------------------
+// enumeration
+// ------------------------------------------------------------------------------------------------
+fn modes(ctx: &mut Ctx) -> Vec<u64> {
+    if ctx.thorough() {
+        vec![0, 1, 2, 3 + ctx.rng.below(60) as u64]
+    } else {
+        vec![0, 1 + ctx.rng.below(8) as u64]
+    }
+}
+fn with_modes(ctx: &mut Ctx, chk: Check, mut input: Value) {
+    for m in modes(ctx) {
+        input["mode"] = json!(m);
+        chk(ctx, &input);
+    }
+}
+
+fn obj_tables() -> Vec<Vec<Vec<u8>>> {
+    vec![
+        vec![vec![], vec![5], vec![6, 7]],       // images of length 0 / 1 / 2 mixed
+        vec![vec![5, 5], vec![5], vec![]],       // repeated labels, so F(a) = F(b) happens for different a, b
+        vec![vec![3], vec![3], vec![3]],         // everything collapses to one label
+        vec![vec![], vec![], vec![]],            // everything erased
+        vec![vec![0], vec![1], vec![2]],         // identity on objects
+    ]
+}
+
+fn relabel_ops(ctx: &mut Ctx, f: &mut M) {
+    for e in 0..f.x.len() {
+        f.x[e] = 10 + ctx.rng.below(4) as u8;
+    }
+}
+
+pub fn run(ctx: &mut Ctx) {
+    if let Some((name, input)) = ctx.replay.clone() {
+        for (n, c) in CHECKS {
+            if *n == name {
+                c(ctx, &input);
+            }
+        }
+        return;
+    }
+    let thorough = ctx.thorough();
+    let corners = gen::corners();
+
+    // ---------------- compose / tensor ----------------
+    for f in &corners {
+        for g in &corners {
+            with_modes(ctx, chk_compose, json!({"f": f.json(), "g": g.json()}));
+            if thorough || f.w.len() + g.w.len() <= 3 {
+                with_modes(ctx, chk_tensor, json!({"f": f.json(), "g": g.json()}));
+            }
+        }
+        // self-composition with the dagger and with identities always type checks
+        with_modes(ctx, chk_compose, json!({"f": f.json(), "g": model::dagger(f).json()}));
+        with_modes(ctx, chk_compose, json!({"f": model::identity(&f.source_type()).json(), "g": f.json()}));
+        with_modes(ctx, chk_compose, json!({"f": f.json(), "g": model::identity(&f.target_type()).json()}));
+    }
+    // exhaustive: operation-free diagrams with arbitrary wiring on <= 2 nodes, all composable pairs
+    let spiders = gen::tiny_spiders();
+    for f in &spiders {
+        for g in &spiders {
+            if f.t.len() == g.s.len() {
+                with_modes(ctx, chk_compose, json!({"f": f.json(), "g": g.json()}));
+            }
+        }
+    }
+    // deep union-find trees: 32 + 32 nodes merged in binomial-tree order, and long chains
+    for levels in [1usize, 3, 4, 6] {
+        for deep in [false, true] {
+            for two in [false, true] {
+                let (f, g) = gen::binomial_pair(levels, deep, two);
+                with_modes(ctx, chk_compose, json!({"f": f.json(), "g": g.json()}));
+            }
+        }
+    }
+    for k in [1usize, 7, 33] {
+        let (f, g) = gen::chain_pair(k);
+        with_modes(ctx, chk_compose, json!({"f": f.json(), "g": g.json()}));
+    }
+    let n = ctx.budget(2000, 56000);
+    for i in 0..n {
+        let b = if i % 10 == 9 { gen::LARGE } else if i % 4 == 0 { model::MEDIUM } else { model::SMALL };
+        let f = model::random_model(&mut ctx.rng, b);
+        let g = if ctx.rng.chance(4, 5) { model::random_model_with_source(&mut ctx.rng, b, &f.target_type()) } else { model::random_model(&mut ctx.rng, b) };
+        with_modes(ctx, chk_compose, json!({"f": f.json(), "g": g.json()}));
+        if i % 5 == 0 {
+            with_modes(ctx, chk_tensor, json!({"f": f.json(), "g": g.json()}));
+        }
+    }
+
+    // ---------------- functor / optic ----------------
+    let tables = obj_tables();
+    for f in &corners {
+        with_modes(ctx, chk_functor, json!({"f": f.json(), "obj": tables[4], "policy": 255}));
+        for (ti, t) in tables.iter().enumerate() {
+            for policy in 0..4usize {
+                if thorough || (ti + policy) % 2 == 0 {
+                    with_modes(ctx, chk_functor, json!({"f": f.json(), "obj": t, "policy": policy}));
+                }
+            }
+        }
+        with_modes(ctx, chk_optic, json!({"f": f.json(), "fobj": tables[0], "robj": tables[1], "res": [[], [9], [9, 8]]}));
+        with_modes(ctx, chk_optic, json!({"f": f.json(), "fobj": tables[4], "robj": tables[4], "res": [[]]}));
+    }
+    let n = ctx.budget(700, 24000);
+    for i in 0..n {
+        let mut f = model::random_model(&mut ctx.rng, if i % 3 == 0 { gen::B3 } else { gen::B3S });
+        relabel_ops(ctx, &mut f);
+        let t = tables[ctx.rng.below(tables.len())].clone();
+        let policy = if i % 6 == 0 { 255 } else { ctx.rng.below(4) };
+        with_modes(ctx, chk_functor, json!({"f": f.json(), "obj": t, "policy": policy}));
+    }
+    let n = ctx.budget(300, 10000);
+    for _ in 0..n {
+        let mut f = model::random_model(&mut ctx.rng, gen::B3S);
+        relabel_ops(ctx, &mut f);
+        let rt = |ctx: &mut Ctx| -> Vec<Vec<u8>> { (0..3).map(|_| { let l = ctx.rng.below(3); (0..l).map(|_| 4 + ctx.rng.below(3) as u8).collect() }).collect() };
+        let (fo, ro, rs) = (rt(ctx), rt(ctx), rt(ctx));
+        with_modes(ctx, chk_optic, json!({"f": f.json(), "fobj": fo, "robj": ro, "res": rs}));
+    }
+
+    // ---------------- layer / preds / graph ----------------
+    for f in &corners {
+        with_modes(ctx, chk_layer, json!({"f": f.json()}));
+        with_modes(ctx, chk_preds, json!({"f": f.json()}));
+        let sel: Vec<usize> = (0..f.w.len()).rev().collect();
+        with_modes(ctx, chk_graph, json!({"f": f.json(), "sel": sel}));
+        with_modes(ctx, chk_graph, json!({"f": f.json(), "sel": []}));
+    }
+    // exhaustive: all hypergraphs with <= 2 nodes, <= 2 operations, source / target lists of length <= 1 (thorough: <= 2 for one operation)
+    let tiny = gen::tiny_hypergraphs(2, 2, 1);
+    for h in &tiny {
+        with_modes(ctx, chk_layer, json!({"f": h.json()}));
+        let sel: Vec<usize> = (0..h.w.len()).collect();
+        with_modes(ctx, chk_graph, json!({"f": h.json(), "sel": sel}));
+        // predicates: with every pair of interface lists of length <= 2 (quick: <= 1)
+        let lists = gen::short_lists(h.w.len(), if thorough { 2 } else { 1 });
+        for s in &lists {
+            for t in &lists {
+                let mut f = h.clone();
+                f.s = s.clone();
+                f.t = t.clone();
+                with_modes(ctx, chk_preds, json!({"f": f.json()}));
+            }
+        }
+    }
+    if thorough {
+        for h in &gen::tiny_hypergraphs(2, 1, 2) {
+            with_modes(ctx, chk_layer, json!({"f": h.json()}));
+            with_modes(ctx, chk_preds, json!({"f": h.json()}));
+        }
+        for h in &gen::tiny_hypergraphs(3, 3, 1) {
+            if h.w.len() == 3 && h.x.len() == 3 {
+                with_modes(ctx, chk_layer, json!({"f": h.json()}));
+            }
+        }
+    }
+    let n = ctx.budget(1500, 48000);
+    for i in 0..n {
+        let f = match i % 4 {
+            0 => model::random_model(&mut ctx.rng, model::MEDIUM),
+            1 => gen::circuit(&mut ctx.rng, 6, 0).0,
+            2 => gen::circuit(&mut ctx.rng, 6, 1).0,
+            _ => gen::circuit(&mut ctx.rng, 5, 2).0,
+        };
+        with_modes(ctx, chk_layer, json!({"f": f.json()}));
+        with_modes(ctx, chk_preds, json!({"f": f.json()}));
+        if i % 2 == 0 {
+            let p = gen::shuffle(&mut ctx.rng, f.w.len());
+            let l = ctx.rng.below(f.w.len() + 1);
+            let sel: Vec<usize> = p[..l].to_vec();
+            with_modes(ctx, chk_graph, json!({"f": f.json(), "sel": sel}));
+        }
+    }
+
+    // ---------------- eval ----------------
+    for f in &corners {
+        let mut f = f.clone();
+        gen::eval_relabel(&mut ctx.rng, &mut f);
+        let ins: Vec<i64> = (0..f.s.len()).map(|i| i as i64 + 1).collect();
+        with_modes(ctx, chk_eval, json!({"f": f.json(), "in": ins}));
+    }
+    let n = ctx.budget(1800, 56000);
+    for i in 0..n {
+        let (f, ins) = gen::circuit(&mut ctx.rng, if i % 5 == 0 { 9 } else { 5 }, [0, 0, 1, 1, 2][i % 5]);
+        with_modes(ctx, chk_eval, json!({"f": f.json(), "in": ins}));
+    }
+
+    // ---------------- hypergraph morphisms ----------------
+    let mut targets = gen::convex_targets();
+    targets.extend(corners.iter().map(gen::strip_interfaces));
+    for h in &targets {
+        // exhaustive: every sub-hypergraph selection
+        for (g, w, x) in gen::all_embeddings(h) {
+            with_modes(ctx, chk_arrow, json!({"g": g.json(), "h": h.json(), "w": w, "x": x}));
+        }
+        // the identity morphism and a reversed-order selection of everything
+        let (n, k) = (h.w.len(), h.x.len());
+        let (w, x): (Vec<usize>, Vec<usize>) = ((0..n).rev().collect(), (0..k).rev().collect());
+        if let Some(g) = gen::pullback(h, &w, &x) {
+            with_modes(ctx, chk_arrow, json!({"g": g.json(), "h": h.json(), "w": w, "x": x}));
+        }
+    }
+    let n = ctx.budget(1500, 48000);
+    for i in 0..n {
+        let h = gen::strip_interfaces(&model::random_model(&mut ctx.rng, if i % 3 == 0 { gen::B3 } else { model::MEDIUM }));
+        let (mut g, mut w, mut x) = if i % 3 == 2 { gen::random_folding(&mut ctx.rng, &h) } else { gen::random_embedding(&mut ctx.rng, &h) };
+        if i % 7 == 3 {
+            // perturb: one label, one incidence entry, one map entry
+            match ctx.rng.below(4) {
+                0 if !g.w.is_empty() => { let v = ctx.rng.below(g.w.len()); g.w[v] = (g.w[v] + 1) % 3; }
+                1 if !g.x.is_empty() => { let e = ctx.rng.below(g.x.len()); g.x[e] ^= 1; }
+                2 if !w.is_empty() => { let v = ctx.rng.below(w.len()); w[v] = ctx.rng.below(h.w.len()); }
+                _ if !x.is_empty() => { let e = ctx.rng.below(x.len()); x[e] = ctx.rng.below(h.x.len()); }
+                _ => {}
+            }
+        }
+        with_modes(ctx, chk_arrow, json!({"g": g.json(), "h": h.json(), "w": w, "x": x}));
+    }
+
+    // ---------------- coequalizer / universal map ----------------
+    let fixed: Vec<Value> = vec![
+        json!({"a": [], "b": [], "n": 0, "q": [], "k": 0, "labels": []}),
+        json!({"a": [], "b": [], "n": 3, "q": [0, 1, 2], "k": 3, "labels": [1, 2, 3]}),
+        json!({"a": [0], "b": [], "n": 2, "q": [0, 0], "k": 1, "labels": [1, 2]}),          // not parallel; inconsistent labels
+        json!({"a": [0, 0, 0], "b": [0, 0, 0], "n": 1, "q": [2, 2, 2], "k": 4, "labels": [7, 7, 7]}), // unhit slots
+        json!({"a": [0, 2, 4], "b": [1, 3, 5], "n": 6, "q": [3, 1], "k": 5, "labels": [1, 2]}),
+        json!({"a": [0, 1, 2, 3], "b": [1, 2, 3, 0], "n": 5, "q": [1, 0, 1, 0], "k": 2, "labels": [4, 5, 4, 5]}),
+        json!({"a": [4, 4, 4], "b": [0, 1, 2], "n": 6, "q": [0, 1, 0], "k": 2, "labels": [4, 5, 5]}),
+    ];
+    for v in fixed {
+        with_modes(ctx, chk_coequalizer, v);
+    }
+    // exhaustive: all pairs of maps 2 -> 3 and all q : 3 -> 2 with labels over {0, 1}
+    let maps23 = gen::short_lists(3, 2).into_iter().filter(|l| l.len() == 2).collect::<Vec<_>>();
+    let maps32 = gen::short_lists(2, 3).into_iter().filter(|l| l.len() == 3).collect::<Vec<_>>();
+    for (i, a) in maps23.iter().enumerate() {
+        for (j, b) in maps23.iter().enumerate() {
+            let q = &maps32[(i * maps23.len() + j) % maps32.len()];
+            for lab in &maps32 {
+                with_modes(ctx, chk_coequalizer, json!({"a": a, "b": b, "n": 3, "q": q, "k": 2, "labels": lab}));
+            }
+        }
+    }
+    let n = ctx.budget(1200, 36000);
+    for i in 0..n {
+        let nn = ctx.rng.range(1, if i % 10 == 0 { 40 } else { 7 });
+        let l = ctx.rng.range(0, nn + 2);
+        let (a, b) = (ctx.rng.vec_below(l, nn), ctx.rng.vec_below(l, nn));
+        let k = ctx.rng.range(1, 5);
+        let ql = ctx.rng.range(1, 6);
+        let q = ctx.rng.vec_below(ql, k);
+        let labels: Vec<u8> = if ctx.rng.chance(2, 3) { q.iter().map(|&c| (c % 2) as u8).collect() } else { (0..ql).map(|_| ctx.rng.below(2) as u8).collect() };
+        with_modes(ctx, chk_coequalizer, json!({"a": a, "b": b, "n": nn, "q": q, "k": k, "labels": labels}));
+    }
+
+    let stats: Vec<String> = STATS.with(|s| s.borrow().iter().map(|(k, v)| format!("{} = {}", k, v)).collect());
+    ctx.notes.push(format!("coverage counters: {}", stats.join("; ")));
+    let hung = TIMEOUTS.with(|t| t.get());
+    if hung > 0 {
+        ctx.notes.push(format!("{} library call(s) did not return within {} s (reported as *-no-panic failures); after 3 such calls the remaining inputs were not run", hung, CALL_TIMEOUT.as_secs()));
+    }
+    ctx.notes.push(
+        "rule: every input is a plain model (plus functor tables / node maps / evaluation inputs) and a backend mode; the same model is built on VecKind and on AdvKind \
+         (mode 0: argsort ties reversed, component numbers reversed, sparse_bincount keys descending, scatter filler = last element; mode m>=1: all of these pseudo-random in (m, data), \
+         odd m: first colliding scatter write wins, m>=2: zero() positions shuffled) and the real generic code runs on both. quick: modes {0, one of 1..8}; thorough: modes {0,1,2, one of 3..62}. \
+         inputs: corner list (model corners + 16 targeted: multiplicity-5 parallel wires, operation-free non-identity wirings, dangling nodes, zero-arity operations, cycles with tails, reversed chains, diamond) \
+         all ordered pairs for compose; exhaustive composable pairs of the 59 operation-free diagrams on <=2 nodes with interfaces <=2; 32+32 nodes merged in binomial-tree order (1,3,4,6 levels, root/non-root handles, 1 or 2 labels) and chains 1/7/33; \
+         exhaustive hypergraphs <=2 nodes <=2 operations arity<=1 for layer/graph/preds (preds x all interface lists of length <=1 quick, <=2 thorough); exhaustive sub-hypergraph selections of 7 convexity targets + corners for the morphism predicates; \
+         exhaustive maps 2->3 x 2->3 for coequalizer; random: SMALL(3,2,2,3,2) / MEDIUM(5,3,3,4,2) / LARGE(8,5,3,5,2; every 10th compose pair) / B3(4,3,2,3,3 labels) models, single-writer circuits (<=9 operations, fan-out / monogamous / feedback), embeddings, foldings and perturbed morphisms. \
+         functors: library Identity and template functors with object images of length 0/1/2 and operation images {single operation, two in sequence, consumer+producer with zero-arity sides, pure wiring}; optics with residuals of length 0/1/2. \
+         non-trivial: compose = composable and both operands have a node and an edge or interface; functor/optic = at least one operation; layer = >=2 operations; eval = single-writer with >=1 operation; preds/graph = >=1 node and operation; arrow = natural morphism into a target with operations; coequalizer = >=1 pair on >=2 elements"
+            .into(),
+    );
+}
